@@ -182,7 +182,8 @@ def main():
     root = tempfile.mkdtemp(prefix="vfc15_")
     try:
         k = 0
-        for fmt, modes in CAPABLE.items():
+        # jpg is lossy: only the persistence rules (when a file exists, what a missing tile reads as) are checked for it
+        for fmt, modes in list(CAPABLE.items()) + [("jpg", ["RGB", "RGBA"])]:
             for mode in modes:
                 for trial in range(3 if h.deep else 1):
                     k += 1
@@ -222,6 +223,9 @@ def main():
                         r_again = pio.read_image(Pos(2, 0, 0) if pos != Pos(2, 0, 0) else Pos(2, 1, 1), default="masked", masked_mode=im_mode)
                         if not np.all(undefined_mask(bmode, r_again.asarray())):
                             h.violation(f"readdefault:{mode}:stale", f"{tag}: after one all-undefined default tile was modified, another missing tile reads back with defined pixels", input={"format": fmt, "mode": mode})
+                    elif fmt == "jpg":
+                        if r_none is None or r_none.asarray().shape[:2] != (256, 256):
+                            h.violation(f"roundtrip:{fmt}:{mode}", f"{tag}: the stored tile does not read back as a 256x256 image", input={"format": fmt, "mode": mode})
                     else:
                         got = r_none.asarray()
                         want = last
